@@ -350,3 +350,135 @@ pub fn chunks(pat: &str, n: usize, r: &mut StdRng) -> Vec<usize> {
     }
     v
 }
+
+/// A minimal encoder of the format (stored blocks and fixed-Huffman blocks only), used to build
+/// streams with matches at chosen (length, distance, position) - inputs for the decoder; what the
+/// streams mean is decided by the acceptor specification, never by this code.
+pub struct Enc {
+    pub z: Vec<u8>,
+    pub p: Vec<u8>,
+    acc: u64,
+    nbits: u32,
+}
+
+const LEN_BASE: [usize; 29] = [3, 4, 5, 6, 7, 8, 9, 10, 11, 13, 15, 17, 19, 23, 27, 31, 35, 43, 51, 59, 67, 83, 99, 115, 131, 163, 195, 227, 258];
+const LEN_EXTRA: [u32; 29] = [0, 0, 0, 0, 0, 0, 0, 0, 1, 1, 1, 1, 2, 2, 2, 2, 3, 3, 3, 3, 4, 4, 4, 4, 5, 5, 5, 5, 0];
+const DIST_BASE: [usize; 30] = [1, 2, 3, 4, 5, 7, 9, 13, 17, 25, 33, 49, 65, 97, 129, 193, 257, 385, 513, 769, 1025, 1537, 2049, 3073, 4097, 6145, 8193, 12289, 16385, 24577];
+const DIST_EXTRA: [u32; 30] = [0, 0, 0, 0, 1, 1, 2, 2, 3, 3, 4, 4, 5, 5, 6, 6, 7, 7, 8, 8, 9, 9, 10, 10, 11, 11, 12, 12, 13, 13];
+
+impl Enc {
+    pub fn new() -> Enc {
+        Enc { z: Vec::new(), p: Vec::new(), acc: 0, nbits: 0 }
+    }
+    fn bits(&mut self, v: u32, n: u32) {
+        self.acc |= (v as u64) << self.nbits;
+        self.nbits += n;
+        while self.nbits >= 8 {
+            self.z.push(self.acc as u8);
+            self.acc >>= 8;
+            self.nbits -= 8;
+        }
+    }
+    /// Huffman code words are packed most significant bit first
+    fn code(&mut self, code: u32, n: u32) {
+        let mut rev = 0u32;
+        for i in 0..n {
+            rev |= ((code >> i) & 1) << (n - 1 - i);
+        }
+        self.bits(rev, n);
+    }
+    fn align(&mut self) {
+        if self.nbits > 0 {
+            let pad = 8 - self.nbits;
+            self.bits(0, pad);
+        }
+    }
+    pub fn stored(&mut self, data: &[u8], last: bool) {
+        self.bits(last as u32, 1);
+        self.bits(0, 2);
+        self.align();
+        let n = data.len() as u32;
+        self.bits(n & 0xffff, 16);
+        self.bits(!n & 0xffff, 16);
+        self.z.extend_from_slice(data);
+        self.p.extend_from_slice(data);
+    }
+    pub fn begin_fixed(&mut self, last: bool) {
+        self.bits(last as u32, 1);
+        self.bits(1, 2);
+    }
+    fn litlen_sym(&mut self, s: u32) {
+        match s {
+            0..=143 => self.code(0x30 + s, 8),
+            144..=255 => self.code(0x190 + (s - 144), 9),
+            256..=279 => self.code(s - 256, 7),
+            _ => self.code(0xC0 + (s - 280), 8),
+        }
+    }
+    pub fn lit(&mut self, b: u8) {
+        self.litlen_sym(b as u32);
+        self.p.push(b);
+    }
+    /// a match; `dist` must not exceed the output so far
+    pub fn mat(&mut self, len: usize, dist: usize) {
+        let li = (0..29).rev().find(|&i| LEN_BASE[i] <= len).unwrap();
+        // 258 has its own symbol; 227..257 use symbol 284
+        let li = if len == 258 { 28 } else if li == 28 { 27 } else { li };
+        self.litlen_sym(257 + li as u32);
+        self.bits((len - LEN_BASE[li]) as u32, LEN_EXTRA[li]);
+        let di = (0..30).rev().find(|&i| DIST_BASE[i] <= dist).unwrap();
+        self.code(di as u32, 5);
+        self.bits((dist - DIST_BASE[di]) as u32, DIST_EXTRA[di]);
+        for _ in 0..len {
+            let b = self.p[self.p.len() - dist];
+            self.p.push(b);
+        }
+    }
+    pub fn end_block(&mut self) {
+        self.litlen_sym(256);
+    }
+    pub fn finish(mut self) -> (Vec<u8>, Vec<u8>) {
+        self.align();
+        (self.z, self.p)
+    }
+}
+
+/// More than one 32 KiB window of random bytes (stored blocks), then short and long matches whose
+/// source or destination straddles a multiple of 32768 in the output (ring index 32764..32767 / 0..3).
+pub fn wrap_match_stream(r: &mut StdRng) -> (Vec<u8>, Vec<u8>) {
+    let mut e = Enc::new();
+    let laps = 1 + r.gen_range(0..2usize);
+    for lap in 1..=laps {
+        // random data up to just before / just after the lap boundary
+        let target = lap * 32768 + [0usize, 1, 2, 5, 40, 300][r.gen_range(0..6)] - if r.gen_range(0..3) == 0 { r.gen_range(0..12) } else { 0 };
+        while e.p.len() < target {
+            let n = (target - e.p.len()).min(r.gen_range(1..=20000));
+            let d: Vec<u8> = (0..n).map(|_| r.gen()).collect();
+            e.stored(&d, false);
+        }
+        e.begin_fixed(false);
+        for _ in 0..r.gen_range(20..60) {
+            let cur = e.p.len();
+            if r.gen_range(0..4) == 0 {
+                e.lit(r.gen());
+                continue;
+            }
+            let len = [3usize, 3, 3, 4, 5, 6, 8, 9, 17, 258][r.gen_range(0..10)];
+            // source ring index next to the wrap, or destination next to the wrap, or anything
+            let want_src = match r.gen_range(0..3) {
+                0 => (32768 + [32764usize, 32765, 32766, 32767, 0, 1, 2][r.gen_range(0..7)]) % 32768,
+                1 => r.gen_range(0..32768),
+                _ => (cur + 32768 - [1usize, 2, 3, 4, 258, 259, 32768][r.gen_range(0..7)]) % 32768,
+            };
+            let mut dist = (cur + 32768 * 4 - want_src) % 32768;
+            if dist == 0 { dist = 32768; }
+            if dist > cur { dist = 1 + r.gen_range(0..cur.min(32768)); }
+            e.mat(len, dist);
+        }
+        e.end_block();
+    }
+    e.begin_fixed(true);
+    e.lit(b'.');
+    e.end_block();
+    e.finish()
+}
